@@ -518,8 +518,8 @@ func checkC10(c *core.Ctx) {
 		traces = append(traces, &Trace{Events: ev, Class: "concurrent-api-stress", Name: fmt.Sprintf("stress#%d", i), Scenario: map[string]any{"seed": c.Seed*10 + int64(i), "duration": dur.String(),
 			"what": "4 goroutines ActorOf/Kill, 3 goroutines Tell/Ask/fail/FindActor/Future.Close, 2 goroutines event stream Subscribe/Publish/Unsubscribe; actors restart on failure; tree projected at quiescence"}})
 	}
-	// C (thorough): the same stress built with the race detector as an observer
-	if c.Thorough() {
+	// C: the same stress built with the race detector as an observer (quick: one short run, thorough: three longer ones)
+	{
 		bin := filepath.Join(c.Scratch.Dir, "vcheck-race")
 		build := exec.Command("go1.26", "build", "-race", "-tags", "verif", "-o", bin, "./cmd/vcheck")
 		build.Dir = filepath.Join(core.VerifDir(), "harness")
@@ -529,8 +529,8 @@ func checkC10(c *core.Ctx) {
 			return
 		}
 		allRaces := map[string]bool{}
-		for i := 0; i < 3; i++ {
-			ev, races, _ := runStress(c, bin, 3*time.Second, c.Seed*20+int64(i))
+		for i := 0; i < core.Pick(c, 1, 3); i++ {
+			ev, races, _ := runStress(c, bin, core.Pick(c, 2500*time.Millisecond, 3*time.Second), c.Seed*20+int64(i))
 			c.Add("evaluations", 1)
 			traces = append(traces, &Trace{Events: ev, Class: "concurrent-api-stress-race-build", Name: fmt.Sprintf("race-stress#%d", i), Scenario: map[string]any{"seed": c.Seed*20 + int64(i)}})
 			for _, r := range races {
